@@ -364,7 +364,7 @@ var _ = report.New
 // ruleAmountStringUntouched (C15): what reaches StringToAmount is the request text, at most trimmed.
 func ruleAmountStringUntouched(c *report.Ctx) {
 	p := c.P
-	c.Rule("amount-string-untouched", "the string handed to StringToAmount — directly or through a wrapper that forwards its parameter (checkParseAmount, the CLI's stringToAmount) — is the caller's text (a parameter, a request field or a map value), at most passed through strings.Trim*: no re-rendering (big.Rat, float, Sprintf, Fields+Join) sits in front of the parser, whose job is to reject everything that is not a plain decimal", 10)
+	c.Rule("amount-string-untouched", "the string handed to StringToAmount — directly or through a wrapper that forwards its parameter (checkParseAmount, the CLI's stringToAmount) — is the caller's text (a parameter, a request field or a map value), at most passed through strings.Trim*: no re-rendering (big.Rat, float, Sprintf, Fields+Join) sits in front of the parser, whose job is to reject everything that is not a plain decimal", 6)
 	sta := fn(c, pkgAPI, "", "StringToAmount")
 	if sta == nil {
 		return
